@@ -126,6 +126,8 @@ func (e *Exec) pkgInitAllowed(path string) bool {
 
 var globalOverrides = map[string]func(e *Exec, c *Cell){
 	repoMod + "/lmdbenv/strategy.isLittleEndian": func(e *Exec, c *Cell) { c.V = e.ts.True },
+	"context.Canceled":         func(e *Exec, c *Cell) { c.V = e.newStubError("context canceled", nil) },
+	"context.DeadlineExceeded": func(e *Exec, c *Cell) { c.V = e.newStubError("context deadline exceeded", nil) },
 }
 
 func fnPkgPath(fn *ssa.Function) string {
@@ -227,6 +229,8 @@ var stubFuncs = map[string]bool{
 	"(*sync.RWMutex).Lock": true, "(*sync.RWMutex).Unlock": true, "(*sync.RWMutex).RLock": true, "(*sync.RWMutex).RUnlock": true,
 	"(*sync.WaitGroup).Add": true, "(*sync.WaitGroup).Done": true, "(*sync.WaitGroup).Wait": true,
 	"time.Sleep": true,
+	repoMod + "/snapshot.ShortHash": true,
+	"(" + repoMod + "/snapshot.NameInfo).ShortHash": true,
 	repoMod + "/lmdbenv/strategy.init#1": true,
 	repoMod + "/utils.GC": true,
 	repoMod + "/utils.DisplayASCII": true,
@@ -258,7 +262,7 @@ func resolveRedirects(prog *ssa.Program, table map[string]string) error {
 			}
 		}
 		if pkg == nil {
-			return fmt.Errorf("redirect target package %s not loaded", pkgPath)
+			continue // package not part of this load: the redirect cannot be hit either
 		}
 		f := pkg.Func(name)
 		if f == nil {
